@@ -9,6 +9,10 @@
 (*  C15.roundtrip  decode(encode(v)) = v   (ldap: N(N(x)) = N(x))           *)
 (*  C15.injective  no earlier item of the format with a different value     *)
 (*                 (ldap: normal form; uid: seed) has the same encoding     *)
+(*  C15.lossless   ldap: every non-empty list x was written with comes back *)
+(*                 in N(x) with the same length, a list of atoms with the   *)
+(*                 same elements as a multiset (re-ordering allowed, losing *)
+(*                 or merging elements not)                                 *)
 (*  C15.idLen      a unique name ends in a 13-character id; a generated id  *)
 (*                 has 13 characters                                        *)
 (*  drift.format   the real encoding is the string Codec.tla's format gives *)
@@ -42,6 +46,7 @@ Verdict(f, items, j) ==
                    => Same(IdentOf(f, items[m]), IdentOf(f, it)))
      \cup Fl2("C15.idLen", /\ (f = "uniq" => Len(IdOfUnique(it.enc)) = 13)
                            /\ (f = "uid" => Len(it.enc) = 13))
+     \cup Fl2("C15.lossless", (f = "ldap" /\ it.ok) => Lossless(it.v.obj, it.n.obj))
      \cup Fl2("drift.format",
               ModelOf(f) \in NameFormats =>
                  /\ Enc(f, it.v) = it.enc
